@@ -4,7 +4,7 @@
 REPO="${1:-/repo}"
 export GOPROXY=off GOSUMDB=off GOTOOLCHAIN=local GOFLAGS=
 OUT=$(mktemp /tmp/baseline-XXXXXX.json)
-(cd "$REPO" && go test -mod=mod -json -vet=off -count=1 -timeout 25m ./... ) >"$OUT" 2>/dev/null
+(cd "$REPO" && go test -mod=mod -json -vet=off -count=1 -timeout ${TIMEOUT:-25m} ./... ) >"$OUT" 2>/dev/null
 python3 - "$OUT" <<'PY'
 import json,sys
 passed=set(); failed=set()
